@@ -145,7 +145,7 @@ def run(chk):
         "duplicates in other spellings, entities), with <= d deviating choices, as str and as UTF-8 bytes, x 4 base URLs x "
         "canonicalize x unique x strip_fragment. Expected hrefs are known by construction." % NPOS
     )
-    failures, tags = grid.run(chk, GRID, d, evaluate)
+    failures, tags = grid.run(chk, GRID, d, evaluate, shrink=(GRID.wit, GRID.wsimplify, fails_fn))
     n = chk.cov["states"]
     chk.add("transitions", n * 4)
     chk.add("evaluations", n)
@@ -154,4 +154,3 @@ def run(chk):
         chk.clause(PROP + "." + c, checked=n, nontrivial=tags.get("has-anchor", 0))
     for c in ("links.absolute", "links.is_url", "links.followable", "links.not-base", "links.resolved", "links.unique"):
         chk.clause(PROP + "." + c, checked=n, nontrivial=tags.get("has-links", 0))
-    core.reduce_failures(chk, [(c, GRID.wit(case), e, g) for (c, case, e, g) in failures], GRID.wsimplify, fails_fn)
